@@ -318,6 +318,17 @@ fn modlists() -> Vec<J> {
         json!([it("rem", "description", vec!["d2"])]),
         json!([it("rem", "class", vec!["group"]), it("purge", "member", vec![])]),
         json!([it("purge", "description", vec![]), it("purge", "class", vec![])]),
+        // Modify::Set: replaces the whole value set (needs the present AND the removed grant)
+        json!([it("set", "description", vec!["d4"])]),
+        json!([it("set", "displayname", vec!["x8"])]),
+        json!([it("set", "legalname", vec!["l2"])]),
+        json!([it("set", "member", vec!["e10"])]),
+        json!([it("set", "member", vec!["e10", "e12"])]),
+        json!([it("set", "entry_managed_by", vec!["e21"])]),
+        json!([it("set", "class", vec!["object", "extensibleobject", "group"])]),
+        json!([it("set", "class", vec!["object", "extensibleobject"])]),
+        json!([it("set", "class", vec!["object", "extensibleobject", "system"])]),
+        json!([it("set", "description", vec!["d4"]), it("pres", "legalname", vec!["l3"])]),
     ]
 }
 
@@ -415,6 +426,53 @@ fn grant_all_scenario(rng: &mut Rng) -> (J, Vec<J>) {
     (cfg, ops)
 }
 
+/// Configuration 1 of every run: ASYMMETRIC grants. Members of e20 may add (present) description, member,
+/// class(+group) but not remove them; may remove displayname but not add it; may do both on legalname; may do
+/// neither on entry_managed_by. Every attribute is then hit with present / removed / purge / Set requests,
+/// through modify and through batch_modify.
+fn asymmetric_scenario() -> (J, Vec<J>) {
+    let rd = json!({"en": true, "rk": "group", "rg": ["e20"], "tgt": pres("class"), "srch": true, "sa": ["class", "description", "name", "uuid"], "mod": false, "cre": false, "del": false});
+    let present_only = json!({"en": true, "rk": "group", "rg": ["e20"], "tgt": pres("class"), "srch": false, "sa": [],
+        "mod": true, "pa": ["class", "description", "legalname", "member"], "ra": [], "pc": ["group"], "rc": [], "cre": false, "del": false});
+    let removed_only = json!({"en": true, "rk": "group", "rg": ["e20"], "tgt": pres("class"), "srch": false, "sa": [],
+        "mod": true, "pa": [], "ra": ["displayname", "legalname"], "pc": [], "rc": [], "cre": false, "del": false});
+    let cfg = json!({"acps": [rd, present_only, removed_only],
+        "ents": {"e1": {"description": ["d1"], "displayname": ["x1"], "entry_managed_by": ["e21"]},
+                 "e2": {"description": [], "displayname": ["x2"], "entry_managed_by": []},
+                 "e3": {"description": ["d2"], "displayname": ["x3"], "entry_managed_by": []},
+                 "e6": {"description": ["d1"], "entry_managed_by": ["e10"]},
+                 "e50": {"sync_yield_authority": []}}});
+    let it = |k: &str, a: &str, v: Vec<&str>| json!({"k": k, "a": a, "v": v});
+    let mut mls = Vec::new();
+    for (a, v) in [("description", "d7"), ("displayname", "x7"), ("legalname", "l7"), ("entry_managed_by", "e21"), ("member", "e11")] {
+        mls.push(json!([it("set", a, vec![v])]));
+        mls.push(json!([it("pres", a, vec![v])]));
+        mls.push(json!([it("purge", a, vec![])]));
+        mls.push(json!([it("purge", a, vec![]), it("pres", a, vec![v])]));
+    }
+    mls.push(json!([it("rem", "description", vec!["d1"])]));
+    mls.push(json!([it("rem", "displayname", vec!["x1"])]));
+    mls.push(json!([it("set", "class", vec!["object", "extensibleobject", "group"])]));
+    mls.push(json!([it("set", "class", vec!["object", "extensibleobject"])]));
+    mls.push(json!([it("set", "class", vec!["object", "group"])]));
+    mls.push(json!([it("pres", "class", vec!["group"])]));
+    mls.push(json!([it("rem", "class", vec!["group"])]));
+    mls.push(json!([it("set", "description", vec!["d7"]), it("set", "legalname", vec!["l7"])]));
+    let mut ops = Vec::new();
+    for idd in [json!({"u":"e10","scope":"rw"}), json!({"u":"e10","scope":"ro"}), json!({"u":"e12","scope":"rw"})] {
+        for ml in &mls {
+            for n in ["n1", "n2", "n3", "n6"] {
+                if idd["scope"] == "rw" && idd["u"] == "e10" || n == "n1" {
+                    ops.push(json!({"op": "modify", "idd": idd, "f": eq("name", n), "ml": ml}));
+                }
+            }
+            ops.push(json!({"op": "batch", "idd": idd, "mods": {"e1": ml}}));
+            ops.push(json!({"op": "batch", "idd": idd, "mods": {"e3": ml, "e2": [it("pres", "legalname", vec!["l1"])]}}));
+        }
+    }
+    (cfg, ops)
+}
+
 pub fn run(o: &Opts) -> i32 {
     let out = o.str("out", "/verif/work/C24/obs.ndjson");
     let rt = runtime();
@@ -437,12 +495,24 @@ pub fn run(o: &Opts) -> i32 {
         } else {
             let (mls, fs, ids) = (modlists(), wfilters(), wids());
             script.push(grant_all_scenario(&mut rng));
+            script.push(asymmetric_scenario());
             for _ in 0..o.u64("configs", 30) {
                 let cfg = gen_wcfg(&mut rng);
                 let acps = cfg["acps"].as_array().cloned().unwrap_or_default();
                 let mut ops = Vec::new();
                 for _ in 0..o.u64("ops", 100) {
                     let idd = rng.pick(&ids).clone();
+                    if rng.chance(1, 12) {
+                        let pool = ["e1", "e2", "e3", "e6", "e9", "e7", "e4"];
+                        let mut mods = Map::new();
+                        for _ in 0..rng.range(1, 2) {
+                            let mut ml = rng.pick(&mls).clone();
+                            if ml.as_array().map(|a| a.is_empty()).unwrap_or(true) { ml = mls[0].clone(); }
+                            mods.insert(rng.pick(&pool).to_string(), ml);
+                        }
+                        ops.push(json!({"op": "batch", "idd": idd, "mods": mods}));
+                        continue;
+                    }
                     let line = match rng.below(10) {
                         0..=4 => {
                             let mut ml = rng.pick(&mls).clone();
@@ -455,6 +525,7 @@ pub fn run(o: &Opts) -> i32 {
                                         let a_ = m["a"].as_str().unwrap_or("").to_string();
                                         match m["k"].as_str().unwrap_or("") {
                                             "pres" => strs(&p["pa"]).contains(&a_) && (a_ != "class" || strs(&m["v"]).iter().all(|c| strs(&p["pc"]).contains(c))),
+                                            "set" => strs(&p["pa"]).contains(&a_),
                                             _ => strs(&p["ra"]).contains(&a_) && (a_ != "class" || strs(&m["v"]).iter().all(|c| strs(&p["rc"]).contains(c))),
                                         }
                                     })).unwrap_or(false)).collect();
